@@ -3317,7 +3317,8 @@ Octagonal_Shape<T>::simplify_using_context_assign(const Octagonal_Shape& y) {
   if (x.contains(y)) {
     Octagonal_Shape<T> res(dim, UNIVERSE);
     x.m_swap(res);
-    return false;
+    // The intersection is `y' itself: it is empty iff `y' is empty.
+    return !y.is_empty();
   }
 
   // Filter away the case where `x' is empty.
